@@ -39,22 +39,28 @@ def ListedRanges (m : Meth) (n : Nat) (v : Kw → Rat) (speLocal : Bool) : Prop 
   -- squishing rate ∈ [0, 1)
   (m = .ManifoldSculpting → 0 ≤ v .squishing_rate ∧ v .squishing_rate < 1)
 
-/-- **Rank conditions on `target_dimension` added by the repairs** (not in the property's list; each is documented in
-    the fix commit and by the comment next to the check): F-DIM-RANK-LOCAL 1a9ba3c, F-LANDMARK-DIM c5e886d,
-    F-DIM-RANK-LINEAR a64904a (keywords.hpp: "less than the minimum of the total number of vectors and the current
-    dimension"), F-TSNE-DIMS 79e38b2.  `dim` is the feature dimension the method sees (`features.dimension()`,
-    0 without a features callback). -/
+/-- **Rank conditions on `target_dimension` added by the repairs.**  They are NOT in the property's list: this half of
+    the specification was written after the code was repaired, from the fix commits of the repository (subject line
+    quoted per row; the check each commit added carries a one-line comment saying the same).  `dim` is the feature
+    dimension the method sees (`features.dimension()`, 0 without a features callback). -/
 def RankConditions (m : Meth) (n dim : Nat) (v : Kw → Rat) : Prop :=
-  -- at most num_neighbors coordinates from a num_neighbors × num_neighbors local Gram matrix
+  -- 1a9ba3c "fix: KLTSA, LLTSA, HLLE and manifold sculpting reject a target dimension their local problems cannot
+  --          supply" (validate(): "the tangent coordinates are the leading eigenvectors of a num_neighbors x
+  --          num_neighbors local Gram matrix"):  target_dimension ≤ num_neighbors
   (m ∈ [Meth.HessianLocallyLinearEmbedding, .KernelLocalTangentSpaceAlignment, .LinearLocalTangentSpaceAlignment] →
       v .target_dimension < v .num_neighbors + 1) ∧
-  -- at most as many coordinates as landmarks, ⌊N · landmark_ratio⌋
+  -- c5e886d "fix: landmark methods reject a target dimension above the number of landmarks" (validate(): "the
+  --          embedding is spanned by eigenvectors of the landmark problem"):  target_dimension ≤ ⌊N · landmark_ratio⌋
   (m ∈ [Meth.LandmarkIsomap, .LandmarkMultidimensionalScaling] →
       v .target_dimension < (truncRat ((n : Rat) * v .landmark_ratio) : Rat) + 1) ∧
-  -- a projection of the feature space: at most `current dimension` coordinates
+  -- a64904a "fix: PCA, NPE, LLTSA and LPP reject a target dimension above the feature dimension" ("rightCols(
+  --          target_dimension) of the D x D eigenvector matrix read out of bounds"), and 1a9ba3c for manifold sculpting;
+  --          keywords.hpp, target_dimension: "less than the minimum of the total number of vectors and the current
+  --          dimension":  target_dimension ≤ current dimension
   (m ∈ [Meth.NeighborhoodPreservingEmbedding, .LinearLocalTangentSpaceAlignment, .LocalityPreservingProjections,
         .PrincipalComponentAnalysis, .ManifoldSculpting] → v .target_dimension < (dim : Rat) + 1) ∧
-  -- the Barnes-Hut approximation (theta > 0) produces two-dimensional maps only
+  -- 79e38b2 "fix: t-SNE respects target_dimension in the exact error and rejects non-2D Barnes-Hut maps" ("the
+  --          Barnes-Hut path uses a quadtree (two dimensions only)"):  theta > 0 → target_dimension = 2
   (m = .tDistributedStochasticNeighborEmbedding → 0 < v .sne_theta → 2 ≤ v .target_dimension ∧ v .target_dimension < 3)
 
 /-- every documented range that applies to method `m` holds -/
